@@ -16,7 +16,7 @@ UsedPrefixes == {p \in Prefixes : \E k \in Held : HasPrefix(k, p)}
 GenPrefix == IF UsedPrefixes # {} /\ rng % 5 # 0 THEN Nth(Asc(UsedPrefixes), D(5)) ELSE Nth(PrefSeq, D(7))
 GenCont(p) == LET S == ContKeys(p) IN Nth(Asc(S), D(19))
 GenNext ==
-  /\ rng' = (75 * rng + 74) % 65537
+  /\ \E d \in 0..3 : rng' = (75 * (rng + d) + 74) % 65537
   /\ \/ Load
      \/ Begin
      \/ (rng % 3 = 0 /\ Commit)
